@@ -282,4 +282,9 @@ func NewCmdUtils$2 returns (err)
   requires @documented-defaults FlagDefault("database") == "food.yaml" && FlagDefault("logfile") == "log.yaml" && FlagDefault("date-format") == "2006/01/02" && IntOfStr(FlagDefault("maxdepth")) == 10
   modifies *
   modifies ghost(cbLen, cbErr, cbNode, cbStop, cbRet, cbLineNo, cbLine, cbHeader, cbElems, cbNElems, scRd, scPos, privLo, evOf, accKey, accP, accN, accH, bufSink, bufSticky, sinkFailed, sinkPend, prLen, prSink, prArg, prArgs, csvLen, csvW, csvN, csvRow, tnodes, tdepth, tmax, tmapOf, jlen, tvLen, tv, tseg, tvSet, adLen, adName, adVal, adSep, adRoot, procLen, procTime, procSrc, lastOpen, cfgRd)
+  // a failure to load the options (an explicitly named configuration file that does not exist, an unreadable one, a
+  // --today that does not parse) is returned, and the command does not run (C16, C06)
+  ghost after call 1 Load { let lerr := #ret }
+  ghost before dyncall 1 { assert @only-after-a-successful-load [C16 C06] lerr == nil && #arg0 == o }
+  ensures @load-error-returned [C16 C06] lerr != nil ==> err == lerr
 @*/
